@@ -1208,4 +1208,182 @@ theorem prevInv_init (c : Cfg) (now : Nat) : PrevInv c (init c now) := by
   intro k it h
   simp [init, Store.get] at h
 
+
+/-! ## One `forward`: a peer whose transmission succeeded is booked afterwards -/
+
+theorem muleFilter_bookLe' (d : Desc) : ∀ (ps : List Peer) (n : Node),
+    BookLe (fun e => ∃ q ∈ ps, muleDrops n.cfg d q = true ∧ q.eid = e) d.key n (muleFilter d ps n).2
+  | [], n => fun _ h _ => h
+  | p :: ps, n => by
+    have ih := muleFilter_bookLe' d ps n
+    simp only [muleFilter]
+    by_cases h : muleDrops n.cfg d p = true
+    · simp only [h, if_true]
+      refine (ih.trans (reportFailure_bookLe d p _)).mono ?_
+      intro e he
+      rcases he with ⟨q, hq, hqd, hqe⟩ | he
+      · exact ⟨q, List.mem_cons_of_mem _ hq, hqd, hqe⟩
+      · exact ⟨p, List.mem_cons_self, h, he.symm⟩
+    · simp only [h, Bool.false_eq_true, if_false]
+      exact ih.mono (fun e ⟨q, hq, hqd, hqe⟩ => ⟨q, List.mem_cons_of_mem _ hq, hqd, hqe⟩)
+
+/-- Each sender is tried once: one output per peer. -/
+theorem sendAll_unique (env : Env) (d : Desc) (b : Bundle) : ∀ (ps : List Peer) (n : Node), ps.Nodup →
+    ∀ p ok1 ok2, Output.sent p b ok1 ∈ (sendAll env d b ps n).2.1 → Output.sent p b ok2 ∈ (sendAll env d b ps n).2.1 →
+    ok1 = ok2
+  | [], n, _, p, ok1, ok2, h1, _ => by simp [sendAll] at h1
+  | q :: ps, n, hn, p, ok1, ok2, h1, h2 => by
+    simp only [sendAll] at h1 h2
+    rcases List.nodup_cons.mp hn with ⟨hq, hps⟩
+    rcases List.mem_cons.mp h1 with h1 | h1 <;> rcases List.mem_cons.mp h2 with h2 | h2
+    · cases h1; cases h2; rfl
+    · cases h1
+      rcases sendAll_outs env d b ps _ _ h2 with ⟨x, _, hx, hxe⟩
+      cases hxe
+      exact absurd hx hq
+    · cases h2
+      rcases sendAll_outs env d b ps _ _ h1 with ⟨x, _, hx, hxe⟩
+      cases hxe
+      exact absurd hx hq
+    · exact sendAll_unique env d b ps _ hps p ok1 ok2 h1 h2
+
+theorem nodup_of_map_nodup {l : List Peer} (h : (l.map (·.eid)).Nodup) : l.Nodup := by
+  induction l with
+  | nil => simp
+  | cons x xs ih =>
+    simp only [List.map_cons, List.nodup_cons] at h ⊢
+    exact ⟨fun hm => h.1 (List.mem_map.mpr ⟨x, hm, rfl⟩), ih h.2⟩
+
+theorem eid_inj_of_nodup {l : List Peer} (h : (l.map (·.eid)).Nodup) {p q : Peer} (hp : p ∈ l) (hq : q ∈ l)
+    (he : p.eid = q.eid) : p = q := by
+  induction l with
+  | nil => cases hp
+  | cons x xs ih =>
+    simp only [List.map_cons, List.nodup_cons] at h
+    rcases List.mem_cons.mp hp with hp1 | hp1 <;> rcases List.mem_cons.mp hq with hq1 | hq1
+    · rw [hp1, hq1]
+    · rw [hp1] at he
+      exact absurd (List.mem_map.mpr (⟨q, hq1, he.symm⟩ : ∃ a, a ∈ xs ∧ a.eid = x.eid)) h.1
+    · rw [hq1] at he
+      exact absurd (List.mem_map.mpr (⟨p, hp1, he⟩ : ∃ a, a ∈ xs ∧ a.eid = x.eid)) h.1
+    · exact ih h.2 hp1 hq1
+
+theorem forward_ok_booked (env : Env) (d : Desc) (b : Bundle) (n : Node) (it : Item)
+    (hg : n.store.get d.key = some it) (hrep : replicates n.cfg b = true) :
+    ∀ p, Output.sent p b true ∈ (forward env d b n).2 → p.eid.sameNode b.dst = false →
+      Booked (forward env d b n).1 d.key p.eid := by
+  intro p hmem hns
+  unfold forward at hmem ⊢
+  simp only at hmem ⊢
+  generalize hd1 : ({ d with cons := { d.cons with fp := true, dp := false } } : Desc) = d1 at hmem ⊢
+  have hk1 : d1.key = d.key := by rw [← hd1]
+  have hne : d1.cons.isEmpty = false := by rw [← hd1]; simp [Cons.isEmpty]
+  rw [← hk1] at hg ⊢
+  have h1 := sync_update d1 n it hg hne
+  have hcfg1 : (sync d1 n).cfg = n.cfg := (sync_env d1 n).cfg
+  split at hmem
+  · cases hmem
+  · split at hmem
+    · cases hmem
+    · split at hmem
+      · cases hmem
+      · rename_i h_1 h_2 h_3
+        simp only [h_1, h_2, h_3, Bool.false_eq_true, if_false]
+        unfold selectSenders at hmem ⊢
+        simp only at hmem ⊢
+        split at hmem
+        · rename_i hdirect
+          simp only [hdirect, if_true]
+          have hdesc := sendersFor_desc env d1 b (sync d1 n)
+          have hrt := sendersFor_rt env d1 b (sync d1 n)
+          rcases hrt.item _ h1 with ⟨it3, g3, _⟩
+          -- p was picked by the algorithm and kept by the mule filter
+          rcases forwardSend_outs env b _ _ hmem with ⟨q, ok', hq, hqe⟩
+          cases hqe
+          have hrep1 : replicates (sync d1 n).cfg b = true := by rw [hcfg1]; exact hrep
+          have hsub : ∀ x ∈ (sendersFor env d1 b (sync d1 n)).1, x ∈ (innerSenders env d1 b (sync d1 n)).1 := by
+            intro x hx
+            unfold sendersFor at hx
+            simp only at hx
+            split at hx
+            · exact muleFilter_fst_sub _ _ _ x hx
+            · exact hx
+          have hpin := hsub p hq
+          have hnd := innerSenders_nodup env d1 b (sync d1 n)
+          -- booked right after the choice
+          have hb0 : Booked (innerSenders env d1 b (sync d1 n)).2.2.2 d1.key p.eid := by
+            intro _
+            rw [(innerSenders_spec env d1 b (sync d1 n) hrep1).2]
+            exact List.mem_append_right _ (List.mem_map.mpr ⟨p, hpin, rfl⟩)
+          -- still booked after the mule filter
+          have hb1 : Booked (sendersFor env d1 b (sync d1 n)).2.2.2 d1.key p.eid := by
+            unfold sendersFor at hq ⊢
+            simp only at hq ⊢
+            split at hq
+            · rename_i hmule
+              simp only [hmule, if_true]
+              have hk := (innerSenders_desc env d1 b (sync d1 n)).1
+              have hml := muleFilter_bookLe' (innerSenders env d1 b (sync d1 n)).2.2.1 (innerSenders env d1 b (sync d1 n)).1
+                (innerSenders env d1 b (sync d1 n)).2.2.2
+              rw [hk] at hml
+              apply hml _ hb0
+              intro ⟨x, hx, hxd, hxe⟩
+              have hxp : x = p := eid_inj_of_nodup hnd hx hpin hxe
+              subst hxp
+              have := (muleFilter_sound (innerSenders env d1 b (sync d1 n)).2.2.1 (innerSenders env d1 b (sync d1 n)).1
+                (innerSenders env d1 b (sync d1 n)).2.2.2).1
+              rw [this] at hq
+              have := (List.mem_filter.mp hq).2
+              rw [hxd] at this
+              cases this
+            · rename_i hmule
+              simp only [hmule, Bool.false_eq_true, if_false]
+              exact hb0
+          -- the transmissions: only failed peers are removed, and p did not fail
+          unfold forwardSend at hmem ⊢
+          simp only at hmem ⊢
+          have hs := sendAll_bookLe env (sendersFor env d1 b (sync d1 n)).2.2.1 b (sendersFor env d1 b (sync d1 n)).1
+            (sendersFor env d1 b (sync d1 n)).2.2.2
+          have hsrt := sendAll_rt env (sendersFor env d1 b (sync d1 n)).2.2.1 b (sendersFor env d1 b (sync d1 n)).1
+            (sendersFor env d1 b (sync d1 n)).2.2.2
+          rw [hdesc.1] at hs hsrt
+          rcases hsrt.item it3 g3 with ⟨it4, g4, _⟩
+          have hnd2 : (sendersFor env d1 b (sync d1 n)).1.Nodup := by
+            have : ((sendersFor env d1 b (sync d1 n)).1.map (·.eid)).Nodup := by
+              unfold sendersFor
+              simp only
+              split
+              · rw [(muleFilter_sound _ _ _).1]
+                exact (hnd.sublist (List.Sublist.map _ List.filter_sublist))
+              · exact hnd
+            exact nodup_of_map_nodup this
+          have hmem' : Output.sent p b true ∈ (sendAll env (sendersFor env d1 b (sync d1 n)).2.2.1 b
+              (sendersFor env d1 b (sync d1 n)).1 (sendersFor env d1 b (sync d1 n)).2.2.2).2.1 := by
+            split at hmem <;> exact hmem
+          have hb2 : Booked (sendAll env (sendersFor env d1 b (sync d1 n)).2.2.1 b
+              (sendersFor env d1 b (sync d1 n)).1 (sendersFor env d1 b (sync d1 n)).2.2.2).1 d1.key p.eid := by
+            apply hs _ hb1
+            intro ⟨x, hx, hxf, hxe⟩
+            have hxp : x = p := eid_inj_of_nodup hnd (hsub x hx) hpin hxe
+            subst hxp
+            have := sendAll_unique env _ b _ _ hnd2 x true false hmem' hxf
+            cases this
+          split
+          · have := sync_bookLe { (sendersFor env d1 b (sync d1 n)).2.2.1 with
+              cons := (sendersFor env d1 b (sync d1 n)).2.2.1.cons.purge } _ it4 (by rw [hdesc.1]; exact g4) p.eid
+              (by rw [hdesc.1]; exact hb2) id
+            rw [hdesc.1] at this
+            exact this
+          · have := sync_bookLe { (sendersFor env d1 b (sync d1 n)).2.2.1 with
+              cons := { (sendersFor env d1 b (sync d1 n)).2.2.1.cons with ci := true } } _ it4 (by rw [hdesc.1]; exact g4) p.eid
+              (by rw [hdesc.1]; exact hb2) id
+            rw [hdesc.1] at this
+            exact this
+        · -- direct delivery: p belongs to the destination node
+          rcases forwardSend_outs env b _ _ hmem with ⟨q, ok', hq, hqe⟩
+          cases hqe
+          have hq2 := (List.mem_filter.mp hq).2
+          rw [hns] at hq2
+          cases hq2
+
 end Dtn7.Node
